@@ -201,13 +201,16 @@ def Strm.cancel (st : Store) (s : Strm) : Strm :=
       | _ => { s with phase := .done .canceled, attached := false }
   | _ => { s with phase := .done .canceled, attached := false }
 
-def Strm.sendFail (s : Strm) : Strm :=
+def Strm.sendFail (h : Handover) (s : Strm) : Strm :=
   match s.phase with
   | .scanning _ => { s with phase := .done .sendError }
   | .live =>
     match s.queue with
     | [] => s
-    | .beacon b :: q => { s with queue := q, sent := s.sent ++ [b], phase := .done .sendError, attached := false }
+    | .beacon b :: q =>
+      match h with
+      | .asIs => { s with queue := q, sent := s.sent ++ [b], phase := .done .sendError, attached := false }
+      | .tracked => { s with queue := q, phase := .done .sendError, attached := false }   -- which Send fails is immaterial
     | .close :: q => { s with queue := q, phase := .done .replaced }
   | _ => s
 
@@ -233,7 +236,7 @@ def Sys.step (h : Handover) (x : Sys) : Ev → Sys
   | .replaced => { x with s := x.s.replaced }
   | .detached => { x with s := x.s.detached }
   | .cancel => { x with s := x.s.cancel x.store }
-  | .sendFail => { x with s := x.s.sendFail }
+  | .sendFail => { x with s := x.s.sendFail h }
 
 def Sys.run (h : Handover) (x : Sys) (es : List Ev) : Sys := es.foldl (Sys.step h) x
 
